@@ -322,12 +322,52 @@ def clean(v):
     return Val(tabs, off)
 
 
+class Lazy(Val):
+    """a | b | ... of values that share bit positions (not a separable sum): kept as the list of operands until a comparison decides it piecewise.
+    Supported afterwards: & and | with a constant (pushed into the operands), | with another value, comparison with a constant (Interp.compare)"""
+    __slots__ = ('ops',)
+
+    def __init__(self, ops):
+        Val.__init__(self, {}, 0); self.ops = list(ops)
+
+    def is_const(self): return False
+    def single(self): return None
+    def bitmask(self): return None
+
+    def rng(self):
+        hi = 0
+        for o in self.ops:
+            lo2, hi2 = o.rng()
+            if lo2 < 0: raise Unmodelled('| of values that can be negative')
+            hi |= (1 << max(hi2, 0).bit_length()) - 1
+        return (0, hi)
+
+    def __repr__(self): return 'Lazy(%s)' % ' | '.join(map(repr, self.ops))
+
+
+def lazy_or(a, b):
+    ops = (a.ops if isinstance(a, Lazy) else [a]) + (b.ops if isinstance(b, Lazy) else [b])
+    for o in ops:
+        if o.rng()[0] < 0: raise Unmodelled('| of values that can be negative')
+    return Lazy(ops)
+
+
 PY = {'+': lambda x, y: x + y, '-': lambda x, y: x - y, '*': lambda x, y: x * y, '&': lambda x, y: x & y, '|': lambda x, y: x | y, '^': lambda x, y: x ^ y,
       '<<': lambda x, y: x << y if 0 <= y < 64 else 0, '>>': lambda x, y: x >> y if 0 <= y < 64 else 0,
       '/': lambda x, y: (abs(x) // abs(y)) * (1 if (x < 0) == (y < 0) else -1) if y else 0, '%': lambda x, y: x - y * ((abs(x) // abs(y)) * (1 if (x < 0) == (y < 0) else -1)) if y else 0}
 
 
 def binop(op, a, b):
+    if isinstance(a, Lazy) or isinstance(b, Lazy):
+        if isinstance(b, Lazy) and not isinstance(a, Lazy) and op in ('&', '|'): a, b = b, a
+        if op in ('&', '|') and b.is_const() and b.off >= 0:
+            r = None
+            for o in a.ops:
+                x = binop(op, o, b)
+                r = x if r is None else binop('|', r, x)
+            return r
+        if op == '|' and isinstance(b, Val): return lazy_or(a, b)
+        raise Unmodelled('operator %s on a bitwise combination of several variables' % op)
     if same_var(a, b): return clean(pointwise(PY[op], a, b))
     if op in ('+', '-'):
         tabs = dict(a.tabs)
@@ -367,7 +407,9 @@ def binop(op, a, b):
         alla = a.off; allb = b.off
         for m in ma.values(): alla |= m
         for m in mb.values(): allb |= m
-        if alla & allb: raise Unmodelled('%s of multi-variable values that share bits' % op)
+        if alla & allb:
+            if op == '|': return lazy_or(a, b)
+            raise Unmodelled('%s of multi-variable values that share bits' % op)
         if op == '&': return Val.const(0)
         tabs = dict(a.tabs); tabs.update(b.tabs)
         return clean(Val(tabs, a.off | b.off))
@@ -520,6 +562,34 @@ class Interp:
                 raise Unmodelled('comparison of pointers %r and %r' % (a, b))
             yield {'<': a.off < b.off, '>': a.off > b.off, '<=': a.off <= b.off, '>=': a.off >= b.off, '==': a.off == b.off, '!=': a.off != b.off}[op], st; return
         if not isinstance(a, Val) or not isinstance(b, Val): raise Unmodelled('comparison of %r and %r' % (a, b))
+        if isinstance(a, Lazy) or isinstance(b, Lazy):
+            if isinstance(b, Lazy): a, b, op = b, a, {'<': '>', '>': '<', '<=': '>=', '>=': '<=', '==': '==', '!=': '!='}[op]
+            if not b.is_const() or isinstance(b, Lazy): raise Unmodelled('comparison of a bitwise combination with a non-constant')
+            # piecewise: every operand depends on one variable and (after masking) takes few values; the result is decided per combination of operand values
+            pieces = [(0, None)]        # ( value so far, condition or None = everything )
+            for o in a.ops:
+                l = o.single()
+                if l is None and not o.is_const(): raise Unmodelled('bitwise combination with an operand of several variables')
+                if o.is_const(): groups = {o.off: None}
+                else:
+                    groups = {}
+                    for i, x in enumerate(o.table(l)): groups.setdefault(x, []).append(i)
+                    if len(groups) > 16: raise Unmodelled('bitwise combination with an operand of %d distinct values (mask it first)' % len(groups))
+                    groups = {x: self.sp.restrict(l, ifrom(idx)) for x, idx in groups.items()}
+                nxt = []
+                for v0, c0 in pieces:
+                    for x, cx in groups.items():
+                        c = cx if c0 is None else (c0 if cx is None else self.sp.AND(c0, cx))
+                        if c is None and not (c0 is None and cx is None): continue
+                        nxt.append((v0 | x, c))
+                pieces = nxt
+                if len(pieces) > 4096: raise Unmodelled('bitwise combination with too many cases')
+            f = {'<': lambda x, y: x < y, '>': lambda x, y: x > y, '<=': lambda x, y: x <= y, '>=': lambda x, y: x >= y, '==': lambda x, y: x == y, '!=': lambda x, y: x != y}[op]
+            g = None
+            for v0, c in pieces:
+                if f(v0, b.off): g = self.sp.OR(g, c if c is not None else self.sp.full())
+            if g is None: yield False, st; return
+            yield from self.split(g, st); return
         if self.avail is not None:
             for x, y, o in ((a, b, op), (b, a, {'<': '>', '>': '<', '<=': '>=', '>=': '<=', '==': '==', '!=': '!='}[op])):
                 t = x.tabs.get(self.avail.level)
